@@ -505,6 +505,7 @@ func c09SameHandle(cfg Config, rep *Report, rng *rand.Rand, monitor func(what, c
 		case <-time.After(60 * time.Second):
 			monitor("concurrent reads on one handle of the mounted file did not return", caseLine, "")
 		}
+		rep.Histogram["mount-same-handle:read-requests"] += workers * reads // requests issued on the shared handle
 		select {
 		case what := <-bad:
 			monitor("with several reads in flight on one handle of the mounted file, a read returned bytes that are not the blob's at its offset (or failed): "+what, caseLine, "")
